@@ -3,13 +3,44 @@
 //!
 //! Naming: module `cNN` = property id; harness names are listed in
 //! /verif/registry.py together with tier, CBMC flags and expected covers.
+#![cfg_attr(kani, feature(allocator_api))]
 #![allow(dead_code)]
 #![allow(clippy::all)]
 
 pub mod models;
 pub mod refcodec;
+#[cfg(kani)]
+pub mod shapes;
+#[cfg(kani)]
+mod c01;
+#[cfg(kani)]
+mod c10;
+#[cfg(kani)]
+mod c16;
+#[cfg(kani)]
+mod c15;
+#[cfg(kani)]
+mod c07;
+#[cfg(kani)]
+mod c04;
+#[cfg(kani)]
+mod c05;
+#[cfg(kani)]
+mod c06;
+#[cfg(kani)]
+mod c02d;
+#[cfg(kani)]
+mod c02w;
+#[cfg(kani)]
+mod gen_args;
 
 #[cfg(kani)]
 mod c14;
 #[cfg(kani)]
 mod c19;
+#[cfg(kani)]
+mod c09;
+#[cfg(kani)]
+mod c13;
+#[cfg(kani)]
+mod c18;
